@@ -621,6 +621,10 @@ class SInt:
     __str__ = lambda s: s.__format__("")
 
 
+import numbers as _numbers  # noqa: E402
+_numbers.Integral.register(SInt)
+
+
 def pyfloordiv(a, b):
     # z3 Int division is euclidean: a = b*q + r with 0 <= r < |b|
     if z3.is_int_value(b) and b.as_long() > 0:
